@@ -125,3 +125,32 @@ MUTANTS += [
     {"id": 'C02-raw-ctor-through-helper-flipped-guard', "prop": "C02", "expect": 'RAW-NONEMPTY',
      "edits": [("src/decoder.rs", _EV_OLD, '        let decoded = self.matcher.decode(buf)?;\n        Ok(item_or_raw(decoded, TerminalEvent::Raw))\n    }\n}\n\nfn item_or_raw<T>(decoded: Option<Result<T, MatcherBuffer>>, raw: impl FnOnce(Vec<u8>) -> T) -> Option<T> {\n    match decoded {\n        None => None,\n        Some(Ok(item)) => Some(item),\n        Some(Err(reject)) if !reject.is_empty() => None,\n        Some(Err(reject)) => Some(raw(reject.into_vec())),\n    }\n}\n')]},
 ]
+
+
+# ---- round M3: named constant for the UTF-8 buffer capacity; Raw / `x - b'0'` inside a closure that runs only under `cond.then(|| ..)`
+_RAW_THEN = ("                (!reject.is_empty()).then(|| {\n                    tracing::info!(\n                        \"[TTYEventDecoder.decode] unhandled: {:?}\",\n"
+             "                        String::from_utf8_lossy(&reject)\n                    );\n                    TerminalEvent::Raw(reject.into_vec())\n                })")
+_NUM_OLD = ("        match b {\n            b'0'..=b'9' => {\n                // numbers that do not fit are reported as unrecognized\n"
+            "                result = result.checked_mul(10)?.checked_add((b - b'0') as usize)?;\n            }\n            _ => return None,\n        }\n")
+
+
+def _cap_edits(n, ty="[u8; UTF8_CAP]"):
+    return [(_D, "    buffer: [u8; 4],\n}\n\nimpl Default for Utf8Decoder", "    buffer: %s,\n}\n\nconst UTF8_CAP: usize = %s;\n\nimpl Default for Utf8Decoder" % (ty, n)),
+            (_D, "            buffer: [0; 4],", "            buffer: [0; UTF8_CAP],")]
+
+
+MUTANTS += [
+    {"id": "C02-benign-utf8-capacity-named-const", "prop": "C02", "benign": True, "edits": _cap_edits("4")},
+    {"id": "C02-benign-utf8-capacity-const-expression", "prop": "C02", "benign": True, "edits": _cap_edits("2 * 2")},
+    {"id": "C02-utf8-capacity-named-const-too-small", "prop": "C02", "expect": "UTF8-CAP", "edits": _cap_edits("3")},
+    {"id": "C02-benign-raw-under-bool-then", "prop": "C02", "benign": True, "edits": [(_D, _RAW_EV, _RAW_THEN)]},
+    {"id": "C02-benign-raw-under-len-then", "prop": "C02", "benign": True, "edits": [(_D, _RAW_EV, _RAW_THEN.replace("(!reject.is_empty()).then", "(reject.len() > 0).then"))]},
+    {"id": "C02-raw-under-bool-then-flipped", "prop": "C02", "expect": "RAW-NONEMPTY", "edits": [(_D, _RAW_EV, _RAW_THEN.replace("(!reject.is_empty()).then", "reject.is_empty().then"))]},
+    {"id": "C02-raw-under-unrelated-then", "prop": "C02", "expect": "RAW-NONEMPTY", "edits": [(_D, _RAW_EV, _RAW_THEN.replace("(!reject.is_empty()).then", "(reject.len() < 64).then"))]},
+    {"id": "C02-benign-digit-under-is-ascii-digit-then", "prop": "C02", "benign": True,
+     "edits": [(_D, _NUM_OLD, "        let digit = b.is_ascii_digit().then(|| (b - b'0') as usize)?;\n        result = result.checked_mul(10)?.checked_add(digit)?;\n")]},
+    {"id": "C02-digit-under-wider-class-then", "prop": "C02", "expect": "number_decode",
+     "edits": [(_D, _NUM_OLD, "        let digit = b.is_ascii_graphic().then(|| (b - b'0') as usize)?;\n        result = result.checked_mul(10)?.checked_add(digit)?;\n")]},
+    {"id": "C02-digit-under-negated-then", "prop": "C02", "expect": "number_decode",
+     "edits": [(_D, _NUM_OLD, "        let digit = (!b.is_ascii_digit()).then(|| (b - b'0') as usize)?;\n        result = result.checked_mul(10)?.checked_add(digit)?;\n")]},
+]
